@@ -185,6 +185,20 @@ theorem t_minus_one_shares_miss {F : Type*} [Field F] {ι : Type*} [DecidableEq 
   have : f.leadingCoeff * (∏ i ∈ s, (X - C (v i))).eval 0 = 0 := by linear_combination -e
   exact (mul_ne_zero hlc hP0) this
 
+/-- non-vacuity: the hypotheses of `t_minus_one_shares_miss` are met by the points 1, 2 over ℚ and `f = X²` (t = 3);
+the same data meet those of `fewer_than_t_any_secret` / `fewer_than_t_not_determined` with t = 3 -/
+example : ∃ (s : Finset (Fin 2)) (v : Fin 2 → ℚ) (f : ℚ[X]),
+    Set.InjOn v s ∧ (∀ i ∈ s, v i ≠ 0) ∧ f.degree = ((s.card : ℕ) : WithBot ℕ) ∧ s.card < 3 ∧ f.degree < ((3 : ℕ) : WithBot ℕ) := by
+  refine ⟨Finset.univ, fun i => (i.val : ℚ) + 1, X ^ 2, ?_, ?_, ?_, ?_, ?_⟩
+  · intro a _ b _ h
+    have : (a.val : ℚ) = b.val := by simpa using h
+    exact Fin.ext (by exact_mod_cast this)
+  · intro i _
+    positivity
+  · rw [degree_X_pow]; simp
+  · simp
+  · rw [degree_X_pow]; exact_mod_cast (by norm_num : (2 : ℕ) < 3)
+
 /-! ## the executable model (what the driver runs against `sss.go`) -/
 
 /-- the executable `lagrangeCoefficient`, whenever it does not panic, is the Lagrange coefficient -/
